@@ -251,4 +251,23 @@ theorem encSeq_message_prefix {ms : List Message} {x : Bytes} (h : EncSeq EncMes
       obtain ⟨g, rfl, hg⟩ := ih t _ ms'' rfl hxs'
       exact ⟨g, rfl, hg⟩
 
+/-- a non-empty sequence of messages has at least 7 bytes -/
+theorem encSeq_message_length {g : List Message} {t : Bytes} (h : EncSeq EncMessage g t) :
+    t = [] ∨ 7 ≤ t.length := by
+  cases h with
+  | nil => exact Or.inl rfl
+  | cons hx _ =>
+    right
+    have := encMessage_length hx
+    simp only [List.length_append]
+    omega
+
+/-- the shape of a message encoding, with the checksum equation on natural numbers -/
+theorem encMessage_shape {m : Message} {c : Bytes} (h : EncMessage m c) :
+    ∃ head tl data, c = head ++ (tl ++ data) ++ [0x00] ∧ EncMessageHead m head ∧
+      EncTlf ⟨.unsigned, data.length⟩ tl ∧ 1 ≤ data.length ∧ data.length ≤ 2 ∧
+      beNat data = (swap16 (crc16 head)).toNat := by
+  obtain ⟨head, crcField, rfl, hh, tl, data, rfl, ht, h1, h2, hv⟩ := h
+  exact ⟨head, tl, data, rfl, hh, ht, h1, h2, by omega⟩
+
 end Sml.Gram
